@@ -36,7 +36,7 @@ TOL = 1e-9
 
 def cases(tier, seed):
     n = 160 if tier == "quick" else 4000
-    return [{"sub": "circ", "i": i} for i in range(n)] + [{"sub": "repo_tests", "tier": tier}]
+    return [{"sub": "circ", "i": i} for i in range(n)] + [{"sub": "repo_tests", "tier": tier}] + [{"sub": "wide", "i": i} for i in range(12 if tier == "quick" else 300)]
 
 
 # ---------------------------------------------------------------------------------------------
@@ -282,6 +282,19 @@ def run_circ(case, ctx):
     ctx.check("probabilities_sum_to_one", abs(tot_real - nz) < 1e-8, "recorded success_probabilities do not sum to one over all outcome strings",
               lambda: dict(wit, recorded=sp_all))
 
+    # the same Circuit object simulated again from another initial state: recorded probabilities are those of THIS run
+    init2 = gen.random_state(rng, n)
+    branches2 = enumerate_branches(desc, n, init2, ctrl)
+    if not any(v is None for v in branches2.values()):
+        for b, (st2, p2, _a2) in sorted(branches2.items()):
+            if p2 < 1e-6:
+                continue
+            freqs2, sv2 = be.simulate(circ, desired_meas_result=b, return_statevector=True, initial_statevector=init2)
+            sp2 = circ.success_probabilities.get(b)
+            ctx.check("branch_probability", sp2 is not None and abs(sp2 - p2) < 1e-9 and refsim.dist(np.asarray(sv2).reshape(-1), st2) < 1e-8,
+                      f"after re-simulating the same circuit object from another initial state, success_probabilities[{b}] / the state are not those of this run",
+                      lambda: dict(wit, outcome=b, second_initial=init2, got=sp2, expected=p2))
+
     # unconditioned path (density matrix) for MEASURE-only circuits: sum_b p_b dist_b == diag(rho)
     if not has_c:
         bs = get_backend("cirq", n_shots=50)
@@ -340,6 +353,50 @@ def run_circ(case, ctx):
                   lambda: dict(wit, all_frequencies=af, got=sv))
 
 
+def run_wide(case, ctx):
+    """Plain MEASURE gates on 8-10 qubits with basis-state (deterministic) outcomes, finite shots, saved mid-circuit results: every
+    recorded bit string is known exactly, position by position (more than ten recorded bits)."""
+    from tangelo.linq import get_backend, Circuit, Gate
+    rng, pr, s = case_rng(ctx.seed, "C10", "wide", case["i"])
+    n = pr.randint(8, 10)
+    bits = [0] * n
+    gates = []
+    meas = []
+    n_meas = pr.randint(2, 4)
+    for step in range(n_meas):
+        for q in pr.sample(range(n), pr.randint(1, 4)):
+            gates.append(Gate("X", q))
+            bits[q] ^= 1
+        if pr.random() < 0.5:
+            a, b_ = pr.sample(range(n), 2)
+            gates.append(Gate("CNOT", b_, control=a))
+            bits[b_] ^= bits[a]
+        q = pr.randrange(n)
+        gates.append(Gate("MEASURE", q))
+        meas.append(str(bits[q]))
+    for q in pr.sample(range(n), pr.randint(0, 3)):
+        gates.append(Gate("X", q))
+        bits[q] ^= 1
+    circ = Circuit(gates, n_qubits=n)
+    final = "".join(map(str, bits))
+    mid = "".join(meas)
+    wit = {"n_qubits": n, "gates": [(g.name, g.target, g.control) for g in gates], "expected_mid": mid, "expected_final": final}
+    for mode in ("save", "desired"):
+        be = get_backend("cirq", n_shots=pr.choice([1, 7, 200]))
+        np.random.seed(s)
+        if mode == "save":
+            freqs, _ = be.simulate(circ, save_mid_circuit_meas=True)
+        else:
+            freqs, _ = be.simulate(circ, desired_meas_result=mid)
+        af, mf = be.all_frequencies, be.mid_circuit_meas_freqs
+        ok = set(freqs) == {final} and abs(freqs[final] - 1) < 1e-9 and set(af) == {mid + final} and set(mf) == {mid}
+        ctx.check("sampled_all_frequencies", ok,
+                  f"deterministic circuit with {n_meas} + {n} recorded bits ({mode}): recorded bit strings are not the known outcomes",
+                  lambda: dict(wit, mode=mode, final=freqs, all_frequencies=af, mid=mf))
+    ctx.nontrivial(("wide", n, n_meas, case["i"]))
+    ctx.tab("recorded_bits", str(n + n_meas))
+
+
 def run_repo_tests(case, ctx):
     """The repository's own tests that post-select on mid-circuit outcomes, as an additional workload for the branch monitor (vlib.livemon)."""
     from vlib.harness import repo_tests_case
@@ -353,4 +410,6 @@ def run_repo_tests(case, ctx):
 def run_case(case, ctx):
     if case["sub"] == "repo_tests":
         return run_repo_tests(case, ctx)
+    if case["sub"] == "wide":
+        return run_wide(case, ctx)
     run_circ(case, ctx)
